@@ -166,3 +166,10 @@ PROPS["C33"] = dict(explanation="Bounded symbolic execution of the real CSVtoNum
     bounds=["files of 0..5 lines, each a data row or a malformed row (all 2^n patterns), chunk sizes 1..3"],
     outside=["field parsing (strconv/time on symbolic text): convertCSVtoCSM is replaced by a stub that builds one row per chunk line", "column mapping (ReadMetadata), the control file", "chunk sizes above 3 (session/load.go uses 1,000,000)"],
     stubs=["(*csv.Reader).Read: scripted outcome per call", "loader.convertCSVtoCSM: one row per line, Epoch from the first field"], assumptions=COMMON_ASSUME)
+
+
+PROPS["C25"] = dict(explanation="Bounded symbolic execution of the master's real write path (Writer.WriteCSM -> FlushCommandsToWAL -> ReplicationSender.Send, captured) and of the replica's real replay.Replayer (executor.ParseTGData, WTSetToCSM, wtSetToCS, serializeVariableRecords, NewRowSeries/ToColumnSeries) over the file-system model; what the replica would write (captured writeFunc argument) is compared with what the master stored: same bucket and record type, same values, fixed-length rows stamped with the interval start, variable-length rows at the instant the master's own reader decodes for them.",
+    runs=[dict(pkg="replication", files=["c25_replica.go"], entries=["VerifC25Replay"], must_reach=["entered", "replayed"], opts=dict(timeout=30))],
+    bounds=["one bucket per transaction; timeframes 1Min, 1H, 1D; fixed-length (int32 column) and variable-length (int32 + Nanoseconds)", "1..2 rows per request (consecutive intervals, or the same interval for variable-length), second/nanosecond/values symbolic"],
+    outside=["transactions that mix fixed- and variable-length buckets (Replayer.Replay uses wtsets[0].RecordType for every set: read from the code, not exercised)", "gRPC transport, ordering between transactions", "tick codec precision (C10): encoder/decoder replaced by contract stubs"],
+    stubs=FS_STUBS + TICK_STUBS, assumptions=COMMON_ASSUME)
